@@ -98,6 +98,7 @@ class Contract:
                     cx.exc = e
                 for (label, cl) in case.post(cx):
                     x.assume(cl)
+                resync_container_views(x, pre)
                 x.event("contract", self.name, case.label)
                 if not eng.feasible(x):
                     continue
@@ -131,13 +132,33 @@ def havoc(eng, st, locs):
             st.g[loc[1]] = z3.Store(old, loc[2], smt.fresh(loc[1] + "@", old.sort().range()))
         elif loc[0] == "field":
             rec = st.objs[loc[1]]
-            rec.fields[loc[2]] = havoc_value(rec.fields[loc[2]], loc[2] + "'")
+            old = rec.fields[loc[2]]
+            new = havoc_value(old, loc[2] + "'")
+            if loc[2] == "_data" and isinstance(old, Z):
+                # a re-pointed container reference still refers to some container object
+                new = Z(smt.VRef(smt.fresh("d'", IntS)), old.hint, dict(old.meta))
+                st.assume(Val.addr(new.term) > 1000)
+            rec.fields[loc[2]] = new
         elif loc[0] == "static":
             key = (loc[1], loc[2])
             old = st.statics.get(key)
             st.statics[key] = havoc_value(old, loc[2] + "'") if old is not None else Z(smt.fresh(loc[2] + "'"))
         else:
             raise Unsupported("location " + repr(loc))
+
+
+def resync_container_views(post, pre):
+    """CView (plain view per container object) is a ghost derived from View: after a callee changed the views it
+    is re-derived for the containers of the known nodes."""
+    if "CView" not in post.g or "View" not in post.g:
+        return
+    if post.g["View"].eq(pre.g["View"]):
+        return
+    post.g["CView"] = smt.fresh("CView'", post.g["CView"].sort())
+    for a, rec in post.objs.items():
+        dv = rec.fields.get("_data")
+        if rec.tag.startswith(("node", "new:")) and isinstance(dv, Z) and dv.hint in ("dict", "list"):
+            post.assume(z3.Select(post.g["CView"], Val.addr(dv.term)) == z3.Select(post.g["View"], z3.IntVal(a)))
 
 
 def same_value(a, b):
@@ -180,7 +201,7 @@ def frame_obligations(eng, pre, post, mod):
             gat.setdefault(m[1], []).append(m[2])
     for name, old in pre.g.items():
         new = post.g.get(name)
-        if name in gmod:
+        if name in gmod or name == "CView":
             continue
         if new is None:
             continue
